@@ -256,6 +256,7 @@ fn run(ctx: &mut Ctx) {
                     let cfg = CfgHist {
                         base,
                         flips: vec![(at, base ^ sw)],
+                        raw: vec![],
                     };
                     if !run_case(ctx, &mut loc, &buf, &cfg) {
                         break 'outer2;
@@ -283,7 +284,7 @@ fn run(ctx: &mut Ctx) {
             cur ^= *r.pick(&SWITCHES);
             flips.push((at, cur));
         }
-        if !run_case(ctx, &mut loc, &doc, &CfgHist { base, flips }) {
+        if !run_case(ctx, &mut loc, &doc, &CfgHist { base, flips, raw: vec![] }) {
             break;
         }
     }
